@@ -1,22 +1,90 @@
 package main
 
 import (
+	"encoding/json"
+	"flag"
 	"fmt"
-	"golang.org/x/tools/go/packages"
-	"golang.org/x/tools/go/ssa"
-	"golang.org/x/tools/go/ssa/ssautil"
-	"golang.org/x/tools/go/cfg"
-	"golang.org/x/tools/go/callgraph/vta"
-	"golang.org/x/tools/go/callgraph/cha"
-	"golang.org/x/tools/go/types/typeutil"
+	"os"
 )
-var _ = cfg.New
-var _ = vta.CallGraph
-var _ = cha.CallGraph
-var _ = typeutil.Callee
-var _ ssa.Value
-var _ = ssautil.AllFunctions
+
 func main() {
-	pkgs, err := packages.Load(&packages.Config{Dir: "/repo", Mode: packages.LoadSyntax}, "./pkg/scheduler")
-	fmt.Println(len(pkgs), err)
+	if len(os.Args) < 2 {
+		fmt.Println("usage: bbverif check|explain|list ...")
+		os.Exit(2)
+	}
+	switch os.Args[1] {
+	case "check":
+		fs := flag.NewFlagSet("check", flag.ExitOnError)
+		prop := fs.String("property", "", "property id")
+		tier := fs.String("tier", "quick", "quick|thorough")
+		repo := fs.String("repo", "/repo", "repository root")
+		out := fs.String("out", "/verif", "output root (evidence/, replay/, known_findings.json)")
+		fs.Parse(os.Args[2:])
+		if *tier != "quick" && *tier != "thorough" {
+			*tier = "quick"
+		}
+		os.Exit(runCheck(*prop, *tier, *repo, *out, nil, false))
+	case "explain":
+		fs := flag.NewFlagSet("explain", flag.ExitOnError)
+		repo := fs.String("repo", "/repo", "repository root")
+		out := fs.String("out", "/verif", "output root")
+		fs.Parse(os.Args[2:])
+		if fs.NArg() != 1 {
+			fmt.Println("usage: bbverif explain <replay.json>")
+			os.Exit(2)
+		}
+		b, err := os.ReadFile(fs.Arg(0))
+		if err != nil {
+			fmt.Println(err)
+			os.Exit(2)
+		}
+		var f Finding
+		if err := json.Unmarshal(b, &f); err != nil {
+			fmt.Println(err)
+			os.Exit(2)
+		}
+		os.Exit(runExplain(f, *repo, *out))
+	case "list":
+		for id, s := range registry {
+			fmt.Println(id, len(s.Rules), len(s.ThoroughRules))
+		}
+	default:
+		fmt.Println("unknown command")
+		os.Exit(2)
+	}
+}
+
+// runExplain re-runs the property's rules on the current tree and prints the finding with
+// the same key, if it is still present (exit 1), or says it is gone (exit 0).
+func runExplain(f Finding, repoDir, outDir string) int {
+	spec := registry[f.Property]
+	if spec == nil {
+		fmt.Println("unknown property", f.Property)
+		return 2
+	}
+	prog, err := LoadProgram(repoDir, nil)
+	if err != nil {
+		fmt.Println("ERROR:", err)
+		return 2
+	}
+	c := &Ctx{P: prog, Tier: "thorough", Prop: f.Property}
+	for _, rf := range append(append([]RuleFunc{}, spec.Rules...), spec.ThoroughRules...) {
+		res, fail := runRule(c, rf)
+		if fail != "" {
+			fmt.Println("rule failure:", fail)
+			continue
+		}
+		for _, g := range res.Findings {
+			if g.Key() == f.Key() {
+				fmt.Printf("still present: %s: [%s] %s\n  %s\n", g.Pos, g.Rule, g.Construct, g.Message)
+				for _, s := range g.Path {
+					fmt.Println("    " + s)
+				}
+				fmt.Printf("VIOLATION property=%s replay=-\n", f.Property)
+				return 1
+			}
+		}
+	}
+	fmt.Printf("finding %s is not reproduced on the current tree\n", f.Key())
+	return 0
 }
